@@ -20,6 +20,7 @@ import (
 	"go/token"
 	"go/types"
 	"sort"
+	"strings"
 
 	"golang.org/x/tools/go/ssa"
 	"golang.org/x/tools/go/ssa/ssautil"
@@ -32,6 +33,8 @@ type chanSite struct {
 	ins   ssa.Instruction
 	pos   token.Pos
 	held  map[int]bool // real lock classes held in every context the walk saw (nil: not walked)
+	// up to two call chains with different immediate callers (close sites: who may run it a second time)
+	chains []*chainNode
 }
 
 type chanSiteOut struct {
@@ -54,6 +57,9 @@ type chanViolation struct {
 	Close chanSiteOut `json:"close"`
 	Send  chanSiteOut `json:"send"`
 	Why   string      `json:"why"`
+	// double close: the chains of two callers that can both reach the close site
+	Kind   string     `json:"kind"` // send-after-close | double-close
+	Chains [][]string `json:"caller_chains,omitempty"`
 }
 
 type chanFacts struct {
@@ -114,6 +120,7 @@ func isBuiltinClose(c *ssa.CallCommon) bool {
 func (a *analyzer) prepareChans() {
 	a.chanSites = map[ssa.Instruction][]*chanSite{}
 	a.chanClosed = map[string]bool{}
+	a.chanByFn = map[*ssa.Function][]*chanSite{}
 	add := func(fn *ssa.Function, ins ssa.Instruction, class, kind string) {
 		if class == "" {
 			class = "?unnamed channel in " + shortName(fn.String())
@@ -123,6 +130,7 @@ func (a *analyzer) prepareChans() {
 		a.chanAll = append(a.chanAll, s)
 		if kind != "send" && kind != "select-send" {
 			a.chanClosed[class] = true
+			a.chanByFn[fn] = append(a.chanByFn[fn], s)
 		}
 	}
 	for fn := range ssautil.AllFunctions(a.prog) {
@@ -167,11 +175,64 @@ func (a *analyzer) chanInteresting(fn *ssa.Function) bool {
 	return false
 }
 
-// chanVisit records the real locks held at a send / close site (intersection over the contexts)
-func (a *analyzer) chanVisit(ins ssa.Instruction, cur []state) {
-	sites, ok := a.chanSites[ins]
-	if !ok {
+// addChain keeps up to two call chains with different immediate callers for a close site
+func (s *chanSite) addChain(chain *chainNode) {
+	if s.kind == "send" || s.kind == "select-send" || chain == nil {
 		return
+	}
+	caller := func(c *chainNode) *ssa.Function {
+		if c.parent != nil {
+			return c.parent.fn
+		}
+		return nil
+	}
+	// a chain that shows where its closures were made reads better than one that starts at the
+	// function the closure was handed to
+	orphans := func(c *chainNode) int {
+		in := map[*ssa.Function]bool{}
+		for x := c; x != nil; x = x.parent {
+			in[x.fn] = true
+		}
+		n := 0
+		for x := c; x != nil; x = x.parent {
+			if p := x.fn.Parent(); p != nil && !in[p] {
+				n++
+			}
+		}
+		return n
+	}
+	for i, c := range s.chains {
+		if caller(c) == caller(chain) {
+			if orphans(chain) < orphans(c) {
+				s.chains[i] = chain
+			}
+			return
+		}
+	}
+	if len(s.chains) < 2 {
+		s.chains = append(s.chains, chain)
+	}
+}
+
+// chanRevisit: the walk reaches fn again in a context it already summarised; the close sites of fn
+// learn the other caller
+func (a *analyzer) chanRevisit(fn *ssa.Function, chain *chainNode) {
+	if !a.record {
+		return
+	}
+	for _, s := range a.chanByFn[fn] {
+		s.addChain(chain)
+	}
+}
+
+// chanVisit records the real locks held at a send / close site (intersection over the contexts)
+func (a *analyzer) chanVisit(ins ssa.Instruction, cur []state, chain *chainNode) {
+	sites, ok := a.chanSites[ins]
+	if !ok || !a.record { // pass B starts every function with nothing held: not a context of the program
+		return
+	}
+	for _, s := range sites {
+		s.addChain(chain)
 	}
 	for _, st := range cur {
 		now := map[int]bool{}
@@ -329,7 +390,16 @@ func (a *analyzer) chanResult() *chanFacts {
 			}
 		}
 		for _, c := range closes {
-			co.Closes = append(co.Closes, out(c))
+			o := out(c)
+			o.Protocol, o.Why = a.closeOnce(class, c, closes)
+			if o.Protocol == 0 {
+				v := chanViolation{Class: class, Close: o, Why: o.Why, Kind: "double-close"}
+				for _, ch := range c.chains {
+					v.Chains = append(v.Chains, a.chainStrings(ch, "close "+class+" at "+a.pf.str(c.pos)))
+				}
+				cf.Violations = append(cf.Violations, v)
+			}
+			co.Closes = append(co.Closes, o)
 		}
 		// (b): everything in one function, no send after a close
 		oneFn := len(closes) > 0
@@ -344,7 +414,7 @@ func (a *analyzer) chanResult() *chanFacts {
 				so.Protocol, so.Why = a.chanProtocol(class, s, closes, oneFn)
 				if so.Protocol == 0 {
 					for _, c := range closes {
-						cf.Violations = append(cf.Violations, chanViolation{Class: class, Close: out(c), Send: so, Why: so.Why})
+						cf.Violations = append(cf.Violations, chanViolation{Class: class, Close: out(c), Send: so, Why: so.Why, Kind: "send-after-close"})
 					}
 				}
 			}
@@ -353,6 +423,149 @@ func (a *analyzer) chanResult() *chanFacts {
 		cf.Channels = append(cf.Channels, co)
 	}
 	return cf
+}
+
+// closeOnce: why a close site runs at most once per channel instance
+//
+//	1 it runs inside a sync.Once.Do function
+//	2 it runs under a mutex in a function that tests and sets a flag under that mutex
+//	3 the function closes a channel it made itself, once (not in a loop)
+//	5 reviewed (close_once in the configuration)
+func (a *analyzer) closeOnce(class string, c *chanSite, closes []*chanSite) (int, string) {
+	// the once / the mutex and its flag have to live in the object that holds the channel:
+	// one of them per channel instance
+	owner := func(s string) string {
+		if i := strings.LastIndex(s, "."); i >= 0 {
+			return s[:i]
+		}
+		return s
+	}
+	for id := range c.held {
+		if a.classKind[id] == "once" && owner(a.classNames[id]) == owner(class) {
+			return 1, "runs inside the function of " + a.classNames[id] + ".Do"
+		}
+	}
+	for id := range c.held {
+		if a.classKind[id] != "once" && owner(a.classNames[id]) == owner(class) {
+			written := a.fieldsTouched(c.fn, true)
+			for _, f := range a.testedBefore(c.ins) {
+				if written[f] && owner(f) == owner(class) {
+					return 2, fmt.Sprintf("runs under %s after a test of %s, which the function sets", a.classNames[id], f)
+				}
+			}
+		}
+	}
+	if len(closes) == 1 && !inCycle(c.ins.Block()) {
+		if com := c.ins.(ssa.CallInstruction).Common(); len(com.Args) == 1 {
+			if a.madeHere(com.Args[0], c.fn) {
+				return 3, "the function closes, once, a channel it made itself"
+			}
+		}
+	}
+	if why, ok := a.cfg.CloseOnce[shortName(c.fn.String())]; ok {
+		return 5, "reviewed: " + why
+	}
+	n := "no caller seen"
+	if len(c.chains) >= 2 {
+		n = "at least two callers reach it"
+	}
+	return 0, "nothing makes this close run at most once per channel (no sync.Once, no flag tested and set under a mutex, not the channel's maker): " + n + ", a second run panics with 'close of closed channel'"
+}
+
+// testedBefore: the fields whose value decides a branch that the instruction is behind (one arm of the
+// branch dominates it)
+func (a *analyzer) testedBefore(ins ssa.Instruction) []string {
+	fn, blk := ins.Parent(), ins.Block()
+	var fieldOf func(v ssa.Value, depth int) string
+	fieldOf = func(v ssa.Value, depth int) string {
+		if depth > 3 {
+			return ""
+		}
+		switch x := v.(type) {
+		case *ssa.UnOp:
+			if x.Op == token.MUL {
+				if fa, ok := x.X.(*ssa.FieldAddr); ok {
+					if st, o := structOf(fa.X.Type()); st != nil && o != nil {
+						return namedName(o.Origin()) + "." + st.Field(fa.Field).Name()
+					}
+				}
+				return ""
+			}
+			return fieldOf(x.X, depth+1)
+		case *ssa.BinOp:
+			if f := fieldOf(x.X, depth+1); f != "" {
+				return f
+			}
+			return fieldOf(x.Y, depth+1)
+		}
+		return ""
+	}
+	var out []string
+	for _, b := range fn.Blocks {
+		if len(b.Instrs) == 0 || b == blk {
+			continue
+		}
+		iff, ok := b.Instrs[len(b.Instrs)-1].(*ssa.If)
+		if !ok || !b.Dominates(blk) {
+			continue
+		}
+		arm := false
+		for _, s := range b.Succs {
+			if s.Dominates(blk) && len(s.Preds) == 1 {
+				arm = true
+			}
+		}
+		if f := fieldOf(iff.Cond, 0); arm && f != "" {
+			out = append(out, f)
+		}
+	}
+	return out
+}
+
+// madeHere: the channel value is a make(chan) of fn (possibly through a local variable)
+func (a *analyzer) madeHere(v ssa.Value, fn *ssa.Function) bool {
+	switch x := v.(type) {
+	case *ssa.MakeChan:
+		return x.Parent() == fn
+	case *ssa.ChangeType:
+		return a.madeHere(x.X, fn)
+	case *ssa.UnOp:
+		if al, ok := x.X.(*ssa.Alloc); ok && al.Parent() == fn {
+			made := false
+			if refs := al.Referrers(); refs != nil {
+				for _, r := range *refs {
+					if st, ok := r.(*ssa.Store); ok && st.Addr == al {
+						if _, isMake := st.Val.(*ssa.MakeChan); isMake {
+							made = true
+						} else {
+							return false
+						}
+					}
+				}
+			}
+			return made
+		}
+	}
+	return false
+}
+
+// inCycle: the block can reach itself
+func inCycle(b *ssa.BasicBlock) bool {
+	seen := map[*ssa.BasicBlock]bool{}
+	work := append([]*ssa.BasicBlock(nil), b.Succs...)
+	for len(work) > 0 {
+		n := work[len(work)-1]
+		work = work[:len(work)-1]
+		if n == b {
+			return true
+		}
+		if seen[n] {
+			continue
+		}
+		seen[n] = true
+		work = append(work, n.Succs...)
+	}
+	return false
 }
 
 func (a *analyzer) chanProtocol(class string, s *chanSite, closes []*chanSite, oneFn bool) (int, string) {
@@ -468,6 +681,23 @@ func emitChanCoq(r *result) string {
 		}
 		for _, sd := range c.Sends {
 			lines = append(lines, fmt.Sprintf("  (%d, %d, %d)%%s (* %s in %s: %s *)", i, n, sd.Protocol, sd.Pos, coqComment(sd.Func), coqComment(sd.Why)))
+			n++
+		}
+	}
+	for i, l := range lines {
+		sep := ";"
+		if i == len(lines)-1 {
+			sep = ""
+		}
+		s += fmt.Sprintf(l, sep) + "\n"
+	}
+	s += "].\n\n(* (channel, close site, justification) for every close site:\n   1 inside a sync.Once.Do function, 2 test-and-set of a flag under a mutex, 3 the maker closes its own channel once, 5 reviewed, 0 none *)\n"
+	s += "Definition chan_close_sites : list (N * N * N) := [\n"
+	lines = nil
+	n = 0
+	for i, c := range cf.Channels {
+		for _, cl := range c.Closes {
+			lines = append(lines, fmt.Sprintf("  (%d, %d, %d)%%s (* %s in %s: %s *)", i, n, cl.Protocol, cl.Pos, coqComment(cl.Func), coqComment(cl.Why)))
 			n++
 		}
 	}
